@@ -1,2 +1,17 @@
 class AnalysisError(Exception):
     """The analysis itself could not be carried out (anchor vanished, construct not modelled)."""
+
+
+def clone(node):
+    """Deep copy of an ast node / list of nodes that ignores the `_parent` back links (copy.deepcopy would copy the module)."""
+    import ast
+    if isinstance(node, list):
+        return [clone(x) for x in node]
+    if not isinstance(node, ast.AST):
+        return node
+    new = type(node)()
+    for k, v in node.__dict__.items():
+        if k == '_parent':
+            continue
+        setattr(new, k, clone(v))
+    return new
